@@ -196,9 +196,13 @@ def kinematics(vk, cfg):
     vk.canary("VolumeChange/hessian==0", H, 0 * H)
 
 
-@contract("C03", "mixed", configs=[dict(wrapper=w, parallel=p) for w in ("ThreeFieldVariation", "NearlyIncompressible") for p in (False, True)] + [dict(wrapper="NearlyIncompressible", parallel=False, volumetric="custom")])
+@contract("C03", "mixed", configs=[dict(wrapper=w, parallel=p) for w in ("ThreeFieldVariation", "NearlyIncompressible") for p in (False, True)] + [dict(wrapper="NearlyIncompressible", parallel=False, volumetric="custom")] + [dict(wrapper=w, parallel=False, state=True) for w in ("ThreeFieldVariation", "NearlyIncompressible")])
 def mixed(vk, cfg):
-    """every returned block of the (u, p, J) formulations is the corresponding mixed second derivative"""
+    """every returned block of the (u, p, J) formulations is the corresponding mixed second derivative (for a
+    wrapped material with stored state: at fixed stored state, and the wrapper hands back the wrapped material's
+    new state evaluated at the argument the wrapper documents)"""
+    if cfg.get("state"):
+        return mixed_state(vk, cfg)
     inner = StubMaterial(vk, hyperelastic=True)
     F = F_sym(vk)
     p = vk.reals("p", (Q, C), near=0.5)
@@ -238,6 +242,57 @@ def mixed(vk, cfg):
     vk.ensures_eq("hessian[uu]-major-symmetric", z(Huu, s4), np.einsum("ijkl...->klij...", z(Huu, s4)))
     if vk.sym:
         vk.canary("hessian[uJ]==0", z(HuJ, s2), ring.lift(np.zeros(s2)) + (0 if cfg["wrapper"] == "ThreeFieldVariation" else 1))
+
+
+def mixed_state(vk, cfg):
+    from vk.stubs import StubStateMaterial
+
+    inner = StubStateMaterial(vk, nstate=2)
+    F = F_sym(vk)
+    p = vk.reals("p", (Q, C), near=0.5)
+    J = vk.reals("J", (Q, C), near=1.0, spread=0.2)
+    z = vk.reals("z", (2, Q, C), near=0.2, spread=0.1)
+    if vk.sym:
+        for x in J.ravel():
+            oracle.assume(x, ">")
+    umat = fem.ThreeFieldVariation(inner) if cfg["wrapper"] == "ThreeFieldVariation" else fem.NearlyIncompressible(inner, bulk=vk.real_scalar("bulk", near=5.0))
+    cls = type(umat)
+    vk.real(cls.gradient)
+    vk.real(cls.hessian)
+    snaps = [vk.snapshot(a) for a in (F, p, J, z)]
+    x = [F, p, J, z]
+    g = umat.gradient(x)
+    H = umat.hessian(x)
+    for nm, a, s0 in zip(("F", "p", "J", "statevars"), (F, p, J, z), snaps):
+        vk.frame_unchanged(nm, a, s0)
+    gu, gp, gJ = g[0], g[1], g[2]
+    Huu, Hup, HuJ, Hpp, HpJ, HJJ = H
+    zz = lambda h, shape: np.zeros(shape, dtype=float) * 1 if h is None and not vk.sym else (ring.lift(np.zeros(shape)) if h is None else bc(h, shape))
+    s4, s2, s0_ = (3, 3, 3, 3, Q, C), (3, 3, Q, C), (Q, C)
+    vk.ensures_eq("state/hessian[uu]==D(gradient[u],F)|z", zz(Huu, s4), dF(vk, gu, F))
+    vk.ensures_eq("state/hessian[up]==D(gradient[u],p)|z", zz(Hup, s2), dS(vk, gu, p))
+    vk.ensures_eq("state/hessian[uJ]==D(gradient[u],J)|z", zz(HuJ, s2), dS(vk, gu, J))
+    vk.ensures_eq("state/hessian[up]==D(gradient[p],F)|z", zz(Hup, s2), dF(vk, bc(gp, s0_), F))
+    vk.ensures_eq("state/hessian[uJ]==D(gradient[J],F)|z", zz(HuJ, s2), dF(vk, bc(gJ, s0_), F))
+    vk.ensures_eq("state/hessian[pp]==D(gradient[p],p)|z", zz(Hpp, s0_), dS(vk, bc(gp, s0_), p))
+    vk.ensures_eq("state/hessian[pJ]==D(gradient[p],J)|z", zz(HpJ, s0_), dS(vk, bc(gp, s0_), J))
+    vk.ensures_eq("state/hessian[JJ]==D(gradient[J],J)|z", zz(HJJ, s0_), dS(vk, bc(gJ, s0_), J))
+    # the new state is the wrapped material's new state (NearlyIncompressible: at F; ThreeFieldVariation: at the
+    # modified deformation gradient (J / det F)^(1/3) F), never the old one
+    if cfg["wrapper"] == "NearlyIncompressible":
+        Farg = F
+    else:
+        detF = symnp.det_ref(F) if vk.sym else np.linalg.det(F.transpose(2, 3, 0, 1)).transpose()
+        if vk.sym:
+            fac = np.empty((Q, C), dtype=object)
+            for b in np.ndindex(Q, C):
+                fac[b] = ring.nthroot(co(J[b]) / co(detF[b]), 3)
+        else:
+            fac = (J / detF.reshape(Q, C)) ** (1 / 3)
+        Farg = fac * F
+    vk.ensures_eq("state/statevars_new==wrapped material's new state", g[-1], inner.gradient([Farg, z])[-1])
+    if vk.sym:
+        vk.canary("state/statevars_new==old", g[-1], z)
 
 
 @contract("C03", "composite", configs=[{}])
@@ -351,9 +406,12 @@ def small_strain(vk, cfg):
             if (f > 0) != (cfg["case"] == "plastic") or abs(f) < 1e-6:
                 raise Skip("other side of the yield surface")
     F0, sv0 = vk.snapshot(F), vk.snapshot(sv)
-    sig, sv_new = umat.gradient([F, sv.copy()])
-    dsde = umat.hessian([F, sv.copy()])[0]
+    # the same stored-state array is handed to gradient and then to hessian, as a Newton iteration does
+    sv_in = sv.copy()
+    sig, sv_new = umat.gradient([F, sv_in])
+    dsde = umat.hessian([F, sv_in])[0]
     vk.frame_unchanged("x[0]", F, F0)
+    vk.frame_unchanged("x[-1] (stored state) after gradient+hessian", sv_in, sv0)
     vk.ensures_eq("hessian==D(gradient)|old-state", bc(dsde, (3, 3, 3, 3, q, c)), dF(vk, sig, F))
     vk.canary("hessian==2*D(gradient)", bc(dsde, (3, 3, 3, 3, q, c)), 2 * dF(vk, sig, F) + 1) if vk.sym else None
     n = sv.shape[0]
